@@ -10,6 +10,7 @@ CONSTANTS
   ImsLe = TRUE
   ImsLocalTime = TRUE
   ImsNotAfterNow = FALSE
+  BigPositions = TRUE
   Tokens <- NoTokens
   MaxTokens = 0
   StartPaths <- CondFiles
